@@ -99,7 +99,7 @@ def polyak_cases(rep, rng, dev, tier):
 
 def screening_runs(rep, rng, dev, tier):
     from tdgl.solver.solver import TDGLSolver
-    plans = [(1e-2, 0.1, 0.5), (1e-3, 0.5, 1.0), (1e-4, 0.5, 1.0), (1e-2, 0.02, 0.5)] if tier == "quick" else \
+    plans = [(1e-2, 0.1, 0.5), (1e-3, 0.5, 1.0), (1e-4, 0.5, 1.0), (1e-2, 0.02, 0.5), (3e-3, 1.0, 1.0)] if tier == "quick" else \
         [(1e-2, 0.1, 0.5), (1e-3, 0.5, 1.0), (1e-4, 0.5, 1.0), (3e-3, 1.0, 1.0), (1e-3, 0.1, 0.25), (1e-2, 1.0, 0.5)]
     worst_ratio = 0.0
     last_sol = None
